@@ -70,6 +70,8 @@ func acquireFromHolder(len int) (uintptr, *[]byte, error) {
 		logger.Error("placeholder space usage overflow", placeHolderIns.count, "hook functions")
 		return 0, nil, errSpaceOverflow
 	}
+	// 以原子累加后的结果计算本次分配的起始位置, 避免并发申请时多个调用方拿到相同的起始地址
+	placeholder = newOffset - uintptr(len)
 
 	bytes := (*[]byte)(unsafe.Pointer(&reflect.SliceHeader{
 		Data: placeholder,
